@@ -93,6 +93,11 @@ func (p *producer) tick(pch string, stepMs uint64) uint64 {
 
 // insert produces one insert message with n fresh rows on shard i of the collection and returns the row ids.
 func (p *producer) insert(c *srcColl, shard, n int, stepMs uint64) []int64 {
+	return p.insertPart(c, shard, n, stepMs, "_default", c.partID)
+}
+
+// insertPart is insert with an explicit partition (e.g. one the downstream does not have).
+func (p *producer) insertPart(c *srcColl, shard, n int, stepMs uint64, partName string, partID int64) []int64 {
 	p.mu.Lock()
 	defer p.mu.Unlock()
 	pch := c.pch[shard]
@@ -109,7 +114,7 @@ func (p *producer) insert(c *srcColl, shard, n int, stepMs uint64) []int64 {
 	for _, r := range rows {
 		pack.Msgs = append(pack.Msgs, &msgstream.InsertMsg{BaseMsg: msgstream.BaseMsg{BeginTimestamp: ts, EndTimestamp: ts, HashValues: []uint32{0}},
 			InsertRequest: &msgpb.InsertRequest{Base: &commonpb.MsgBase{MsgType: commonpb.MsgType_Insert, Timestamp: ts, MsgID: r},
-				CollectionID: c.id, CollectionName: c.name, DbName: c.db, PartitionName: "_default", PartitionID: c.partID, ShardName: c.vch[shard],
+				CollectionID: c.id, CollectionName: c.name, DbName: c.db, PartitionName: partName, PartitionID: partID, ShardName: c.vch[shard],
 				NumRows: 1, RowIDs: []int64{r}, Timestamps: []uint64{ts}, Version: msgpb.InsertDataVersion_ColumnBased,
 				FieldsData: []*schemapb.FieldData{{Type: schemapb.DataType_Int64, FieldName: "pk", FieldId: 100,
 					Field: &schemapb.FieldData_Scalars{Scalars: &schemapb.ScalarField{Data: &schemapb.ScalarField_LongData{LongData: &schemapb.LongArray{Data: []int64{r}}}}}}}}})
